@@ -25,6 +25,12 @@ def floors(tier):
 
 
 def gen_cases(tier, seed):
+    pseudo = symfam.gen_pseudo_cases(tier, seed, 5, 1, n_pres=2) if tier == "quick" else \
+        symfam.gen_pseudo_cases(tier, seed, 5, 5, n_pres=3, groups=range(1, 195))
+    return _gen_cases(tier, seed) + pseudo
+
+
+def _gen_cases(tier, seed):
     if tier == "quick":
         return symfam.gen_cases(tier, seed, 5, per_group=1, n_pres=2, extra_random=60, special_bias=0.6) + symfam.gen_letter_cases(tier, seed, 5, 3)
     return symfam.gen_cases(tier, seed, 5, per_group=8, n_pres=3, extra_random=400, special_bias=0.6) + symfam.gen_letter_cases(tier, seed, 5, 0)
